@@ -40,7 +40,7 @@
     /// ACKNACK decoder), every field value (final flag, entity ids, set base, one arbitrary member or none, count).
     /// @props C08
     /// @kind bounded
-    /// @tier thorough
+    /// @tier extended
     /// @timeout 2400
     /// @bounds sequence number set {base+1, base+5} with arbitrary base
     /// @fn write_submessage_into_bytes_vec, SubmessageHeaderRead::try_read_from_bytes, AckNackSubmessage::try_from_bytes
@@ -58,7 +58,7 @@
     /// C08: GAP submessage round trip, every field value.
     /// @props C08
     /// @kind bounded
-    /// @tier thorough
+    /// @tier extended
     /// @timeout 2400
     /// @bounds gap list {base+1, base+5} with arbitrary base
     /// @fn write_submessage_into_bytes_vec, GapSubmessage::try_from_bytes
@@ -76,7 +76,7 @@
     /// C08: NACK_FRAG submessage round trip, every field value (fragment number set with at most one member).
     /// @props C08
     /// @kind bounded
-    /// @tier thorough
+    /// @tier extended
     /// @timeout 2400
     /// @bounds fragment number set {base+1, base+5} with arbitrary base <= u32::MAX - 64
     /// @fn write_submessage_into_bytes_vec, NackFragSubmessage::try_from_bytes
@@ -131,7 +131,7 @@
     /// and sizes, 4 arbitrary payload bytes.
     /// @props C08
     /// @kind bounded
-    /// @tier thorough
+    /// @tier extended
     /// @timeout 2400
     /// @bounds payload of 4 bytes, empty inline QoS
     /// @fn DataFragSubmessage::try_from_bytes, <DataFragSubmessage as Submessage>::write_submessage_header_into_bytes, write_submessage_into_bytes_vec
@@ -167,7 +167,7 @@
     /// C08: DATA submessage round trip, every flag combination (inline QoS off), ids, sequence number, 4 arbitrary payload bytes.
     /// @props C08
     /// @kind bounded
-    /// @tier thorough
+    /// @tier extended
     /// @timeout 2400
     /// @bounds payload of 4 bytes, empty inline QoS
     /// @fn DataSubmessage::try_from_bytes, write_submessage_into_bytes_vec
@@ -218,7 +218,7 @@
     /// C07/C06: DATA_FRAG decoder total, same shape (36 bytes after the header so that the >= 32 branch is taken).
     /// @props C07 C06
     /// @kind bounded
-    /// @tier thorough
+    /// @tier extended
     /// @timeout 1200
     /// @bounds 36 bytes after the submessage header; inline QoS flag clear
     /// @fn DataFragSubmessage::try_from_bytes
@@ -295,7 +295,7 @@
     /// inline QoS), yields a submessage whose flags are the ones written - writer and reader agree on every flag bit.
     /// @props C08
     /// @kind proof
-    /// @tier thorough
+    /// @tier extended
     /// @timeout 2400
     /// @fn <DataFragSubmessage as Submessage>::write_submessage_header_into_bytes, <DataSubmessage as Submessage>::write_submessage_header_into_bytes, SubmessageHeaderWrite::new, SubmessageHeaderRead::try_read_from_bytes, DataFragSubmessage::try_from_bytes, DataSubmessage::try_from_bytes
     #[cfg_attr(kani, kani::proof)]
@@ -340,7 +340,7 @@
     /// C08: DATA flag agreement between writer and reader (same construction as for DATA_FRAG).
     /// @props C08
     /// @kind proof
-    /// @tier thorough
+    /// @tier extended
     /// @timeout 2400
     /// @fn <DataSubmessage as Submessage>::write_submessage_header_into_bytes, SubmessageHeaderWrite::new, SubmessageHeaderRead::try_read_from_bytes, DataSubmessage::try_from_bytes
     #[cfg_attr(kani, kani::proof)]
